@@ -55,6 +55,7 @@ type pollOutcome struct {
 	loopDone bool
 	trigOK   bool
 	batchMax int
+	earlyExit []string
 }
 
 func runPoll(t *rapid.T, s pollScn, replay []vs.Step) *pollOutcome {
@@ -242,6 +243,9 @@ func runPoll(t *rapid.T, s pollScn, replay []vs.Step) *pollOutcome {
 	if livelock {
 		return o
 	}
+	w.mu.Lock()
+	o.earlyExit = append([]string(nil), w.pollExit...)
+	w.mu.Unlock()
 	// drain what the kernel still holds for the peers (output direction)
 	for _, r := range o.recs {
 		if w.fds[r.peer] {
@@ -292,6 +296,9 @@ func judgePoll(s pollScn, o *pollOutcome) (sig, msg string) {
 	if len(o.parked) > 0 {
 		return "parked", fmt.Sprintf("actors blocked at quiescence: %v", o.parked)
 	}
+	if len(o.earlyExit) > 0 {
+		return "loop-exited", fmt.Sprintf("the Wait loop returned although nobody closed the poller: %v (epoll fd open: %v) | events: %s", o.earlyExit, fdOpen(w.polls[0].fd), logs)
+	}
 	for i, d := range s.Descs {
 		r := o.recs[i]
 		desc := fmt.Sprintf("descriptor %d (inbuf %d, out %d, detach %v, unread %v)", i, d.InBuf, d.Out, d.Detach, d.Unread)
@@ -318,7 +325,7 @@ func judgePoll(s pollScn, o *pollOutcome) (sig, msg string) {
 			}
 			if !d.Detach {
 				if len(r.got) != r.sent {
-					return "input-incomplete", fmt.Sprintf("%s: the peer wrote %d bytes, InputAck delivered %d at quiescence | events: %s", desc, r.sent, len(r.got), logs)
+					return "input-incomplete", fmt.Sprintf("%s: the peer wrote %d bytes, InputAck delivered %d at quiescence | %s | epfd open=%v readable=%v fd open=%v inq=%d | events: %s", desc, r.sent, len(r.got), w.s.Describe(), fdOpen(w.polls[0].fd), vsPollReadable(w.polls[0].fd), fdOpen(r.fd), siocinq(r.fd), logs)
 				}
 				// data before hang-up
 				seenHup := false
@@ -330,7 +337,7 @@ func judgePoll(s pollScn, o *pollOutcome) (sig, msg string) {
 					}
 				}
 				if r.peerEnded && r.hups != 1 {
-					return "hup-missing", fmt.Sprintf("%s: the peer ended the stream, OnHup ran %d times | events: %s", desc, r.hups, logs)
+					return "hup-missing", fmt.Sprintf("%s: the peer ended the stream, OnHup ran %d times | %s | events: %s", desc, r.hups, w.s.Describe(), logs)
 				}
 				if !r.peerEnded && r.hups != 0 {
 					return "hup-spurious", fmt.Sprintf("%s: OnHup ran although the peer neither closed nor shut down | events: %s", desc, logs)
@@ -445,7 +452,12 @@ func TestVerifC11(t *testing.T) {
 		defer o.w.close()
 		st.eval()
 		e2TraceHash(st, o.w)
-		if sig, msg := judgePoll(s, o); sig != "" {
+		if sig, msg := judgePoll(s, o); sig != "" && e2Confirmed(st, o.w, func(d []vs.Step) string {
+			o2 := runPoll(nil, s, d)
+			defer o2.w.close()
+			s2, _ := judgePoll(s, o2)
+			return s2
+		}) {
 			vReport(vViolation{Property: "C11", Slot: "rapid:C11", Signature: sig, Message: msg, Replay: e2Replay{Scenario: s, Strategy: o.w.strategy, Decisions: o.w.trace(), Events: o.w.names(), TraceTail: o.w.describeTrace(40)}})
 			t.Fatalf("C11 violated [%s]: %s\nscenario: %+v\nlast steps:\n%s", sig, msg, s, o.w.describeTrace(30))
 		}
